@@ -700,6 +700,16 @@ func (cacheStream) Execute(c Case) {
 		}
 	}()
 	auto, _ := c["auto"].(bool)
+	// a file of the layout that only appears once the cache exists and has been queried
+	var lateData []byte
+	latePath := ""
+	if la, _ := c["lateadd"].(string); len(la) > 2 {
+		latePath = filepath.Join(cacheRoot, "phys", la[2:], "zz-late.json")
+		if data, err := os.ReadFile(latePath); err == nil {
+			lateData = data
+			_ = os.Remove(latePath)
+		}
+	}
 	var cache *cdi.Cache
 	if late, _ := c["latedirs"].(bool); late {
 		// hide the tree while the cache is created, then bring it back
@@ -736,16 +746,11 @@ func (cacheStream) Execute(c Case) {
 	if auto {
 		defer func() { _ = cache.Configure(cdi.WithAutoRefresh(false)) }()
 	}
-	if la, _ := c["lateadd"].(string); la != "" && cache != nil {
-		latePath := filepath.Join(cacheRoot, "phys", la[2:], "zz-late.json")
-		if data, err := os.ReadFile(latePath); err == nil {
-			_ = os.Remove(latePath)
-			_ = cache.Refresh()
-			_, _, _, _ = cache.ListDevices(), cache.ListVendors(), cache.ListClasses(), cache.GetVendorSpecs("late.com")
-			time.Sleep(20 * time.Millisecond)
-			_ = os.WriteFile(latePath, data, 0o644)
-			for deadline := time.Now().Add(4 * time.Second); time.Now().Before(deadline) && cache.GetDevice("late.com/latecls=d0") == nil; time.Sleep(10 * time.Millisecond) {
-			}
+	if lateData != nil && cache != nil {
+		_, _, _, _ = cache.ListDevices(), cache.ListVendors(), cache.ListClasses(), cache.GetVendorSpecs("late.com")
+		time.Sleep(20 * time.Millisecond)
+		_ = os.WriteFile(latePath, lateData, 0o644)
+		for deadline := time.Now().Add(4 * time.Second); time.Now().Before(deadline) && cache.GetDevice("late.com/latecls=d0") == nil; time.Sleep(10 * time.Millisecond) {
 		}
 	}
 	if rs, ok := c["restore"].([]any); ok && len(rs) > 0 {
